@@ -192,7 +192,7 @@ impl Property for C16 {
                             return Err(format!("glob `{}`: the bare walk feeds an entry more than once: {:?}", g.glob, o.logs.last().unwrap()));
                         }
                         let yielded = o.items.iter().filter_map(|i| i.rel.clone()).collect();
-                        match observe(&entries, g, fed, yielded) {
+                        match observe(&entries, g, fed, yielded, false) {
                             Ok(ob) => Some(ob),
                             Err(m) => return Err(format!("{} [tree {:?}]", m, case.tree.nodes.iter().map(|n| n.path.as_str()).collect::<Vec<_>>())),
                         }
